@@ -218,6 +218,10 @@ def gen_sample_triangle(rng, positive=False):
     pool = list(range(1, 20000))
     rng.shuffle(pool)
     kinds = rng.sample(["B", "scalar", "float", "len1", "none"], rng.randint(1, 4))
+    # prediction-style triangles: some cells are OBSERVED (scalars in the sampled fields), the others carry
+    # samples; "first": the first cell in triangle order is observed, "some": random cells are
+    mixed = "no" if positive else rng.choice(["no", "no", "first", "first", "some"])
+    first_key = None
     for m in metas(rng, n_slices):
         for ps, pe, evs in rows:
             for e in evs:
@@ -234,8 +238,19 @@ def gen_sample_triangle(rng, positive=False):
                 if "none" in kinds and not positive:
                     vals["written_premium"] = None
                 cells.append(CumulativeCell(period_start=ps, period_end=pe, evaluation_date=e, values=vals, metadata=m))
+    if mixed != "no" and len(cells) > 1:
+        order = sorted(range(len(cells)), key=lambda j: cells[j])
+        observed = {order[0]} if mixed == "first" else {j for j in order if rng.random() < 0.4}
+        if mixed == "first" and rng.random() < 0.5:
+            observed |= {j for j in order[1:-1] if rng.random() < 0.3}
+        observed -= {order[-1]}                                   # keep at least one sampled cell
+        for j in observed:
+            c = cells[j]
+            obs = {f: (int(v[0]) if isinstance(v, np.ndarray) and v.dtype.kind == "i" and len(v) > 1 else
+                       float(v[0]) if isinstance(v, np.ndarray) and len(v) > 1 else v) for f, v in c.values.items()}
+            cells[j] = c.replace(values=obs)
     rng.shuffle(cells)
-    return Triangle(cells), n, {"shape": shape, "n": n, "slices": n_slices, "kinds": kinds}
+    return Triangle(cells), n, {"shape": shape, "n": n, "slices": n_slices, "kinds": kinds, "mixed": mixed}
 
 
 def canon(t):
@@ -261,8 +276,9 @@ def thin_case(seed):
     t, n, info = gen_sample_triangle(rng)
     k = rng.choice([1, 2, n - 1, n, n, n + 1, rng.randint(1, n + 2)])
     k = max(1, k)
-    s = rng.randrange(10**6)
+    s = rng.choice([0, 0, 1, 2**32 - 1, rng.randrange(10**6), rng.randrange(10**6), rng.randrange(10**6)])
     fails = []
+    info["seed"] = s
     with Recording() as rec:
         try:
             out, exc = U.thin(t, k, seed=s), None
@@ -288,38 +304,52 @@ def thin_case(seed):
             if frame(c) != frame(c2) or c.metadata != c2.metadata or list(c.values) != list(c2.values):
                 fails.append("coordinates / metadata / field names changed")
                 break
-            a, a2 = c.values["paid_loss"], c2.values["paid_loss"]
-            if len(a2) != k:
-                fails.append(f"array length {len(a2)} != k={k}")
-                break
-            pos = [int(np.where(a == x)[0][0]) if (a == x).any() else -1 for x in a2]
-            if -1 in pos:
-                fails.append("thinned values are not samples of the source array")
-                break
-            if len(set(pos)) != len(pos):
-                fails.append(f"sample positions not distinct: {pos}")
-            if positions is None:
-                positions = pos
-            elif pos != positions:
-                fails.append(f"different sample positions in different cells: {positions} vs {pos}")
-                break
+            # EVERY array (size > 1) of EVERY cell: k samples, taken at the same distinct positions
+            stop = False
             for f, v in c.values.items():
                 v2 = c2.values[f]
                 if isinstance(v, np.ndarray) and len(v) > 1:
-                    if not (isinstance(v2, np.ndarray) and v2.dtype == v.dtype and np.array_equal(v2, v[pos])):
-                        fails.append(f"field {f}: not the same positions as paid_loss (per-field redraw?)")
+                    if not (isinstance(v2, np.ndarray) and v2.dtype == v.dtype):
+                        fails.append(f"field {f} @ {c.evaluation_date}: array replaced by {type(v2).__name__}")
+                        stop = True
+                        break
+                    if len(v2) != k:
+                        fails.append(f"field {f} @ {c.evaluation_date}: {len(v2)} samples kept, wanted k={k}")
+                        stop = True
+                        break
+                    pos = [int(np.where(v == x)[0][0]) if (v == x).any() else -1 for x in v2]   # values are distinct
+                    if -1 in pos:
+                        fails.append(f"field {f}: thinned values are not samples of the source array")
+                        stop = True
+                        break
+                    if len(set(pos)) != len(pos):
+                        fails.append(f"sample positions not distinct: {pos}")
+                    if positions is None:
+                        positions = pos
+                    elif pos != positions:
+                        fails.append(f"different sample positions in different arrays/cells: {positions} vs {pos} (field {f})")
+                        stop = True
+                        break
                 elif C.canon_value(v) != C.canon_value(v2):
                     fails.append(f"field {f}: scalar / short array / None changed")
-            if "reported_loss" in c.values and not np.array_equal(c2.values["reported_loss"], 2 * c2.values["paid_loss"] + 1):
+            if stop:
+                break
+            p2, r2 = c2.values.get("paid_loss"), c2.values.get("reported_loss")
+            if isinstance(p2, np.ndarray) and isinstance(r2, np.ndarray) and len(p2) > 1 and not np.array_equal(r2, 2 * p2 + 1):
                 fails.append("samplewise relation reported_loss = 2*paid_loss+1 lost")
         if positions is not None and positions != ndxs:
             fails.append(f"positions {positions} differ from the recorded draw {ndxs}")
         if len(draws) != 1:
             fails.append(f"{len(draws)} index vectors drawn instead of one")
-        # seed determinism (monitor)
+        try:
+            if out.num_samples != (k if k > 1 or n == 1 else 1):
+                fails.append(f"thinned triangle reports num_samples={out.num_samples}, wanted {k}")
+        except ValueError:
+            fails.append("thinned triangle has inconsistent sample counts")
+        # seed determinism (monitor): the same seed twice, boundary seed 0 included, compared strictly
         again = U.thin(t, k, seed=s)
         if canon(again) != canon(out):
-            fails.append("same seed twice gave different results")
+            fails.append(f"same seed ({s}) twice gave different results")
     # ---- model
     try:
         impl = f"(Err {cerr(exc)})" if exc is not None else f"(Ok {C.ccells(out.cells)})"
@@ -358,9 +388,10 @@ def boot_case(seed):
     rng = random.Random(seed)
     t, info = gen_boot_triangle(rng)
     n = rng.choice([1, 2, 3])
-    s = rng.randrange(10**6)
+    s = rng.choice([0, 0, 1, 2**32 - 1, rng.randrange(10**6), rng.randrange(10**6), rng.randrange(10**6)])
     fsel = rng.choice([None, None, rng.choice(info["fields"]), rng.sample(info["fields"], rng.randint(1, len(info["fields"])))])
     fails, terms = [], []
+    info["seed"] = s
     with Recording() as rec:
         try:
             reps, exc = U.bootstrap(t, n, seed=s, field=fsel), None
@@ -481,7 +512,7 @@ def boot_case(seed):
     # seed determinism (monitor)
     again = U.bootstrap(t, n, seed=s, field=fsel)
     if [canon(r) for r in again] != [canon(r) for r in reps]:
-        fails.append("same seed twice gave different replicates")
+        fails.append(f"same seed ({s}) twice gave different replicates (n={n}, field={fsel!r})")
     return {"coq": terms, "fails": fails, "info": info, "n_cells": len(t)}
 
 
@@ -601,7 +632,8 @@ def mm_case(seed):
 # ------------------------------------------------------------------------------------------ the check
 def run(ctx):
     ctx.rule = (
-        "thin: sample-valued triangles (1-3 slices, 1-4 periods/lags, rectangle/triangle/row/column; 2-6 samples; all "
+        "thin: sample-valued triangles (1-3 slices, 1-4 periods/lags, rectangle/triangle/row/column; 2-6 samples; observed "
+        "scalar cells mixed with sampled cells incl. the first cell in triangle order; seeds incl. 0 and 2^32-1, every call repeated with the same seed; all "
         "sample values distinct; correlated field reported_loss = 2*paid_loss+1, float arrays, scalars, size-1 arrays, None), "
         "k in 1..n+2, seeds; bootstrap: positive complete rectangular / upper-left triangular triangles, single row / column "
         "/ diagonal, 1-3 slices, 1-6 periods and lags, n in 1..3, seeds, field selections (None, str, list); moment_match: "
@@ -636,6 +668,10 @@ def run(ctx):
             info = out["info"]
             ctx.hist(f"{kind}:{info.get('outcome', '?').split(':')[0]}")
             ctx.hist(f"{kind}:shape={info.get('shape')}")
+            if "mixed" in info and kind == "thin":
+                ctx.hist(f"thin:observed-scalar-cells={info['mixed']}")
+            if kind in ("thin", "bootstrap"):
+                ctx.hist(f"{kind}:seed={'0' if info.get('seed') == 0 else 'nonzero'} (same seed called twice)")
             if kind == "bootstrap":
                 for m in info.get("methods", []):
                     ctx.hist(f"bootstrap:method={m}")
